@@ -126,7 +126,7 @@ def analyse(fn, prop, F, stats):
 
 def run(prop="C01", tier="quick"):
     res = dict(findings=[], stats=collections.Counter(), samples=[], notes=[])
-    ex = sa.export(sa.Config("built-samesrc", extra_files=[FIXTURE]))
+    ex = sa.export(sa.cfg_builtfx())
     sa.check_errors(ex)
     fx = []
     for path, fn in ex.functions():
